@@ -287,7 +287,7 @@ def rule_traverse(prog):
                 for alt in hir.pat_alternatives(arm["pat"]):
                     pv = hir.pat_variant(alt)
                     if pv and pv.startswith(ep + "::"):
-                        covered[last(pv)] = (alt, arm)
+                        covered.setdefault(last(pv), []).append((alt, arm))
             for v in adt["variants"]:
                 vname = v["name"]
                 reaching = [f for f in v["fields"] if reach.type_reaches(fc, f["t"], targets)]
@@ -302,26 +302,55 @@ def rule_traverse(prog):
                             "variant %s::%s can contain %s but is swallowed by a wildcard arm: whatever is "
                             "inside is skipped" % (last(ep), vname, "/".join(sorted(targets))), (kind,))
                     continue
-                alt, arm = covered[vname]
-                alt = hir.pat_strip(alt)
                 fields_needed = reaching if reaching else v["fields"]
-                bound = {}
-                if alt.get("k") == "TupleStruct":
-                    for i, q in enumerate(alt["pats"]):
-                        bs = list(hir.pat_bindings(q))
-                        if i < len(v["fields"]):
-                            bound[v["fields"][i]["name"]] = bs
-                elif alt.get("k") == "Struct":
-                    for f in alt["fields"]:
-                        bound[f["name"]] = list(hir.pat_bindings(f["pat"]))
+                # a variant may be spread over several arms by the shape of its payload (`ArrayType { base_type: Some(b), .. }` /
+                # `ArrayType { base_type: None, .. }`): a field is descended into if an unguarded arm binds and uses it and the
+                # other arms of the variant either pin that field to an empty shape (`None`, `[]`) or stand behind that arm
+                per_arm = []
+                for alt, arm in covered[vname]:
+                    alt = hir.pat_strip(alt)
+                    bound, pats_ = {}, {}
+                    if alt.get("k") == "TupleStruct":
+                        for i, q in enumerate(alt["pats"]):
+                            if i < len(v["fields"]):
+                                bound[v["fields"][i]["name"]] = list(hir.pat_bindings(q))
+                                pats_[v["fields"][i]["name"]] = q
+                    elif alt.get("k") == "Struct":
+                        for f in alt["fields"]:
+                            bound[f["name"]] = list(hir.pat_bindings(f["pat"]))
+                            pats_[f["name"]] = f["pat"]
+                    per_arm.append((arm, bound, pats_))
+
+                def empty_shape(q):
+                    q = hir.pat_strip(q) if isinstance(q, dict) else None
+                    if q is None:
+                        return False
+                    if q.get("k") == "Path" and last(hir.pat_variant(q) or "") == "None":
+                        return True
+                    return q.get("k") == "Slice" and not (q.get("before") or q.get("after") or q.get("mid"))
+
                 ok = True
                 missing = []
+                arm = per_arm[0][0]
                 for f in fields_needed:
                     if (kind, last(ep), vname, f["name"]) in EXCEPTIONS:
                         continue
-                    bs = bound.get(f["name"], [])
-                    used = any(local_uses(arm["body"], x["id"]) or (arm.get("guard") and local_uses(arm["guard"], x["id"])) for x in bs)
-                    if not used:
+                    used_before = False
+                    f_ok = True
+                    for arm_, bound, pats_ in per_arm:
+                        bs = bound.get(f["name"], [])
+                        used = any(local_uses(arm_["body"], x["id"]) or (arm_.get("guard") and local_uses(arm_["guard"], x["id"])) for x in bs)
+                        if used:
+                            if arm_.get("guard") is None:
+                                used_before = True
+                            continue
+                        if empty_shape(pats_.get(f["name"])) or used_before:
+                            continue
+                        f_ok = False
+                        arm = arm_
+                    if not f_ok or (not used_before and not any(
+                            any(local_uses(a_["body"], x["id"]) or (a_.get("guard") and local_uses(a_["guard"], x["id"])) for x in bd_.get(f["name"], []))
+                            for a_, bd_, _ in per_arm)):
                         ok = False
                         missing.append(f["name"])
                 out.add(item, what, ok, c.loc(arm["sp"]),
